@@ -135,6 +135,39 @@ CLAIMED = {
          'full real runs incl. write_epw.',
          'Trusted: Lean kernel (core only); stubbing of the physics in harness/simdriver.py (the physics cannot influence time, '
          'row selection or recording - checked by un-stubbed runs).', 'DESIGN.md section 4 C02'),
+ 'C03': ('Lean 4 theorems about the whole simulate loop with an arbitrary (uninterpreted) physics step, built on the proved '
+         'closed form of the control trace (C02); tied by running the REAL loop with a toy physics against the model, a footprint '
+         'scan and paired real runs on perturbed rural files',
+         'Proof: for every physics, the records of hours 0..h are identical for rural windows agreeing on rows 0..h (monthly '
+         'ground temperatures), longer windows extend shorter ones, rows outside the window and unmodelled columns are irrelevant, '
+         'and with fewer than three ground depths the window mean is the only extra dependence. The model of the loop is checked '
+         'against the real simulate with a toy physics that folds everything a step may read; paired real runs compare records '
+         'and written rows bit for bit.',
+         'Trusted: Lean kernel (core only). Assumption: the real physics step reads only its state, the current forcing row, the '
+         'clock and the deep temperatures - checked syntactically (footprint scan) and by paired runs, not proved.',
+         'DESIGN.md section 4 C03'),
+ 'C10': ('Lean 4 theorems on the same loop model (complete records on return, refusal of non-dividing timesteps, bounds '
+         'preserved through records, zero-load arithmetic) plus watchdog-guarded execution of the real reader and simulations',
+         'Proof: a normal return holds exactly 24*days records; a timestep that is zero or does not divide an hour ends in an '
+         'exception before the first step; every record is stored after that step\'s validity check; the internal-load '
+         'fractions are defined for all non-negative loads. Executed: every dt 1..3600 against the constructor, the loop with '
+         'raising toy steps, every single-token corruption of the shipped parameter file under an alarm (hang = violation), '
+         'real runs scanned for missing / non-finite / out-of-bound records and non-numeric written fields, zero-load schedules.',
+         'Trusted: Lean kernel (core + Mathlib ordered fields for T4). NaN/Inf propagation, hangs inside libm or the OS and the '
+         'reader totality (modelled under C06) are outside these theorems; they are covered by the scans and the watchdog.',
+         'DESIGN.md section 4 C10'),
+ 'C07': ('Lean 4 theorems (lists, permutations, association maps; rationals for fractions) about a model of the bld setter, '
+         '_customize_reference_data and _compute_BEM, tied to the real routines on injected synthetic libraries and the shipped library',
+         'Proof: on success the simulated (type, era, fraction) list is a permutation of the aggregated stock, every entry is the '
+         'library cell of the proxy zone, fractions are preserved; an unmatched row always refuses; customs replace or extend; '
+         'splitting a row into identical rows changes nothing. Pre-repair behaviours are proved as counter-examples.',
+         'Trusted: Lean kernel, standard axioms, the injection of synthetic libraries in harness/props/c07.py.',
+         'DESIGN.md section 4 C07'),
+ 'C08': ('Lean 4 theorems on the same model: each override, at every accepted value, is carried by every entry and enters the '
+         'totals; unset overrides leave reference values; independence across all 64 subsets; same ties as C07',
+         'Proof: override_applied / override_unset / totals_formula / override_independent for all six overrides and all values '
+         '(0 and 1 included). The ties exercise all 64 subsets with boundary values on synthetic and shipped libraries.',
+         'Trusted: as C07.', 'DESIGN.md section 4 C08'),
 }
 NOT_YET = 'check not built yet in this session (work in progress; see DESIGN.md section 4)'
 
